@@ -166,6 +166,11 @@ class CallMixin:
 
     def _fresh_value(self, kind: str, name: str) -> V:
         kind = kind.strip()
+        if kind.startswith("constdict:"):
+            import json as _json
+
+            spec = _json.loads(kind[len("constdict:"):])
+            return self.new_container(VConstDict({k: self._fresh_value(v, f"{name}[{k}]") for k, v in spec.items()}))
         if kind.startswith("obj:"):
             cn = kind[4:]
             ci = self.repo.lookup_class(cn)
@@ -509,7 +514,7 @@ class CallMixin:
             # the callee's own (separately verified) postcondition is available as a lemma
             vals_ = dict(bound)
             vals_["result"] = res
-            for en_ in sorted(n for n in c.funcs if n == "ensures" or n.startswith("ensures_") and n != "ensures_raise"):
+            for en_ in sorted(n for n in c.funcs if n == "ensures" or (n.startswith("ensures_") and not n.startswith("ensures_raise"))):
                 try:
                     self.path.assume(self.truthy(self.eval_contract_fn(c, en_, vals_, old_heap, dict(bound))))
                 except Unsupported:
@@ -721,13 +726,15 @@ class CallMixin:
             else:
                 self.path.effects.append((eff,))
         if kind == "normal":
+            for eff in c.effects_ok:  # only when the call returned normally
+                self.path.effects.append((eff[0],) + tuple(bound.get(a) for a in eff[1:]))
             for target in c.modifies:
                 self.havoc_path(target, Env(c.module, dict(bound)))
             result = NONE
             if c.returns and c.returns != "none":
                 result = self.fresh_value(c.returns, f"{c.short}.ret")
             values["result"] = result
-            for en_ in sorted(n for n in c.funcs if n == "ensures" or n.startswith("ensures_") and n != "ensures_raise"):
+            for en_ in sorted(n for n in c.funcs if n == "ensures" or (n.startswith("ensures_") and not n.startswith("ensures_raise"))):
                 post = self.truthy(self.eval_contract_fn(c, en_, values, old_heap, old_env))
                 self.path.assume(post)
             if "names_result" in c.funcs:
@@ -740,8 +747,8 @@ class CallMixin:
             self.havoc_path(target, Env(c.module, dict(bound)))
         exc = self.make_exception(c, en)
         values["exc"] = exc
-        if "ensures_raise" in c.funcs:
-            post = self.truthy(self.eval_contract_fn(c, "ensures_raise", values, old_heap, old_env))
+        for er_ in sorted(n for n in c.funcs if n.startswith("ensures_raise")):
+            post = self.truthy(self.eval_contract_fn(c, er_, values, old_heap, old_env))
             self.path.assume(post)
         if ("exc_" + en) in c.funcs:
             self.path.assume(self.truthy(self.eval_contract_fn(c, "exc_" + en, values, old_heap, old_env)))
